@@ -332,7 +332,8 @@ class Reader:
             for var, aps in byvar.items():
                 if all(contains(X, lambda t, v=e.value: t == v) for e, _ in aps):
                     return aps
-        return self.local_appends('project_lecturers')
+        # ... or the model's own list, filled directly (a builder method of the model appends quotas and lecturer together)
+        return self.local_appends('project_lecturers') or self.appends('proj_lecturers')
 
     def header_stores(self, attr):
         """[(effect, field number, (lo, hi, other))] for the stores of a header count"""
@@ -377,8 +378,13 @@ class Reader:
     def is_fields(self, t):
         return self.fields_line(t)
 
-    def header_field(self, v):
+    def header_field(self, v, _depth=0):
         """int(<header line>.split()[k]) -> (k, read from lines[0] directly?)"""
+        if v[0] == 'attr' and v[1] == self.model and _depth < 2:
+            # model.num_lecturers = model.num_projects: the count stored just before, read back (the single header store of it)
+            prev = [e for e, _ in self.all_events() if e.kind == 'store' and e.target == v]
+            if len(prev) == 1 and prev[0].value != v:
+                return self.header_field(prev[0].value, _depth + 1)
         if v[0] == 'call' and v[1] == S('int') and len(v[2]) == 1:
             x = v[2][0]
             if x[0] == 'idx' and x[2][0] == 'const':
@@ -439,6 +445,10 @@ def own_id_ok(R, term, want, wl, wh, at_effect):
             order = {id(ee): i for i, (ee, _) in enumerate(R.events())}
             return lo2 == wl and hi2 == wh and not oth2 and order[id(aps[0][0])] < order.get(id(at_effect), 10 ** 9)
     return False
+
+
+def counts_a_model_list(R, term):
+    return contains(term, lambda t: t[0] == 'call' and t[1] == S('len') and len(t[2]) == 1 and t[2][0][0] == 'attr' and t[2][0][1] == R.model)
 
 
 def rank_keys(R):
@@ -620,7 +630,13 @@ def check_reader(rep, R):
                       want='int(fields[3])', construct='project lecturer <- %s' % show(e.value), loc=e.loc)
         else:
             okv = own_id_ok(R, e.value, psub(patom('idx'), ns), pl, ph, e)
-            rep.check(okv, 'C10.R5', w, 'hospital j is offered by its own lecturer j (j = line index - n_s) %s' % cfg, got=show(e.value),
+            if not okv and counts_a_model_list(R, e.value):
+                # an id derived from the number of entries read so far, in a form the count invariant above does not cover
+                # (the term does not say WHEN the length was taken): not decided here
+                rep.inconclusive('C10.R5', w, 'the id a hospital line gets is in closed form %s' % cfg, got=show(e.value), loc=e.loc)
+                okv = None
+            if okv is not None:
+              rep.check(okv, 'C10.R5', w, 'hospital j is offered by its own lecturer j (j = line index - n_s) %s' % cfg, got=show(e.value),
                       want='index - num_students', construct='embedding lecturer id ' + show(e.value), loc=e.loc)
     # ---- preference-list slices and ids ----
     want_slices = {'student': 1, 'second': 3 if R.na == 2 else 4}
@@ -663,8 +679,11 @@ def check_reader(rep, R):
                 lid = key[1][0]
                 want = psub(patom('idx'), ns) if R.na == 2 else psub(patom('idx'), padd(ns, np_))
                 okk = own_id_ok(R, lid, want, wl, wh, x)
-                rep.check(okk, 'C10.R2', w, 'second-side ranks are keyed by the id of their own line (index - (start - 1)) %s' % cfg, got=show(lid),
-                          want=pshow(want), construct='second-side id %s %s' % (show(lid), cfg), loc=x.loc)
+                if not okk and counts_a_model_list(R, lid):
+                    rep.inconclusive('C10.R2', w, 'the id second-side ranks are keyed by is in closed form %s' % cfg, got=show(lid), loc=x.loc)
+                else:
+                  rep.check(okk, 'C10.R2', w, 'second-side ranks are keyed by the id of their own line (index - (start - 1)) %s' % cfg, got=show(lid),
+                            want=pshow(want), construct='second-side id %s %s' % (show(lid), cfg), loc=x.loc)
             else:
                 rep.fail('C10.R4', w, 'second-side ranks are recorded per (lecturer, student) %s' % cfg, got='no keyed store', construct='rank dictionary store %s' % cfg)
     check_token_use(rep, R, cfg)
@@ -685,7 +704,8 @@ def check_reader(rep, R):
                 while t_[0] == 'not':
                     t_, neg_ = t_[1], not neg_
                 return (not neg_) and (is_lines(t_) or (t_[0] == 'call' and t_[1] == S('len') and len(t_[2]) == 1 and is_lines(t_[2][0])))
-            ifs = [c for c, br in ctx if c.kind == 'if' and not nonempty_file_test(c, br)]
+            # (... and the code after `if <key missing>: raise KeyError(...)` runs for every pair that does not make the reader fail)
+            ifs = [c for c, br in ctx if c.kind == 'if' and not nonempty_file_test(c, br) and not getattr(c, 'assumed', False)]
             fors = [c for c, _ in ctx if c.kind == 'for']
             pair = e.target[1]
             okd = all_pairs_loops(fors, R.model) and pair == fors[-1].binder and not ifs
